@@ -197,6 +197,18 @@ impl http_body::Body for ChunkBody {
 thread_local! {
     static SIM_DEADLINE: std::cell::Cell<Option<std::time::Instant>> = const { std::cell::Cell::new(None) };
     static SIM_POLLS: std::cell::Cell<u64> = const { std::cell::Cell::new(0) };
+    /// set when the guard fired: the panic may be swallowed by the runtime (inside a spawned task),
+    /// so the verdict of the whole case is taken from this flag
+    static SIM_BUDGET_HIT: std::cell::Cell<bool> = const { std::cell::Cell::new(false) };
+    /// debugging aid (VERIF_NET_DEBUG): [read pending, read ready, read sleeping, write pending, write ready, bytes written]
+    static SIM_IO_STATS: std::cell::Cell<[u64; 6]> = const { std::cell::Cell::new([0; 6]) };
+}
+fn stat(i: usize, by: u64) {
+    SIM_IO_STATS.with(|c| {
+        let mut v = c.get();
+        v[i] += by;
+        c.set(v);
+    });
 }
 
 pub const SIM_BUDGET_MSG: &str = "netsim real-time budget exceeded";
@@ -209,6 +221,10 @@ fn budget_tick() {
     if n % 4096 == 0 {
         if let Some(d) = SIM_DEADLINE.with(|c| c.get()) {
             if std::time::Instant::now() > d {
+                SIM_BUDGET_HIT.with(|c| c.set(true));
+                if std::env::var_os("VERIF_NET_DEBUG").is_some() {
+                    eprintln!("budget exceeded after {n} transport polls; io stats {:?}; stack of the polling task:\n{}", SIM_IO_STATS.with(|c| c.get()), std::backtrace::Backtrace::force_capture());
+                }
                 panic!("{}", SIM_BUDGET_MSG);
             }
         }
@@ -258,7 +274,10 @@ impl AsyncRead for SlowIo {
         loop {
             if let Some(s) = self.sleep.as_mut() {
                 match s.as_mut().poll(cx) {
-                    Poll::Pending => return Poll::Pending,
+                    Poll::Pending => {
+                        stat(2, 1);
+                        return Poll::Pending;
+                    }
                     Poll::Ready(()) => self.sleep = None,
                 }
             }
@@ -277,9 +296,13 @@ impl AsyncRead for SlowIo {
             let mut tmp = vec![0u8; buf.remaining().max(1).min(16 * 1024)];
             let mut rb = ReadBuf::new(&mut tmp);
             match Pin::new(&mut self.inner).poll_read(cx, &mut rb) {
-                Poll::Pending => return Poll::Pending,
+                Poll::Pending => {
+                    stat(0, 1);
+                    return Poll::Pending;
+                }
                 Poll::Ready(Err(e)) => return Poll::Ready(Err(e)),
                 Poll::Ready(Ok(())) => {
+                    stat(1, 1);
                     let n = rb.filled().len();
                     if n == 0 {
                         self.eof = true;
@@ -296,7 +319,33 @@ impl AsyncRead for SlowIo {
 impl AsyncWrite for SlowIo {
     fn poll_write(mut self: Pin<&mut Self>, cx: &mut Context<'_>, buf: &[u8]) -> Poll<std::io::Result<usize>> {
         budget_tick();
-        Pin::new(&mut self.inner).poll_write(cx, buf)
+        let r = if std::env::var_os("VERIF_NET_DEBUG").is_some() && SIM_POLLS.with(|c| c.get()) > 1_000_000 {
+            // debugging aid: who wakes a writer that is blocked on a full pipe?
+            struct Spy(std::task::Waker);
+            impl std::task::Wake for Spy {
+                fn wake(self: Arc<Self>) {
+                    static N: AtomicUsize = AtomicUsize::new(0);
+                    if N.fetch_add(1, Ordering::Relaxed) < 3 {
+                        eprintln!("blocked writer woken by:\n{}", std::backtrace::Backtrace::force_capture());
+                    }
+                    self.0.wake_by_ref();
+                }
+            }
+            let w = std::task::Waker::from(Arc::new(Spy(cx.waker().clone())));
+            let mut cx2 = Context::from_waker(&w);
+            Pin::new(&mut self.inner).poll_write(&mut cx2, buf)
+        } else {
+            Pin::new(&mut self.inner).poll_write(cx, buf)
+        };
+        match &r {
+            Poll::Pending => stat(3, 1),
+            Poll::Ready(Ok(n)) => {
+                stat(4, 1);
+                stat(5, *n as u64);
+            }
+            _ => {}
+        }
+        r
     }
     fn poll_flush(mut self: Pin<&mut Self>, cx: &mut Context<'_>) -> Poll<std::io::Result<()>> {
         Pin::new(&mut self.inner).poll_flush(cx)
@@ -846,6 +895,7 @@ pub fn run_net_case(case: &NetCase) -> Result<Obs, String> {
     let obs_out = obs.clone();
     SIM_DEADLINE.with(|c| c.set(Some(std::time::Instant::now() + std::time::Duration::from_secs(5))));
     SIM_POLLS.with(|c| c.set(0));
+    SIM_BUDGET_HIT.with(|c| c.set(false));
     let res = std::panic::catch_unwind(std::panic::AssertUnwindSafe(|| {
         rt.block_on(async move {
             obs.lock().unwrap().t0 = Some(Instant::now());
@@ -958,6 +1008,10 @@ pub fn run_net_case(case: &NetCase) -> Result<Obs, String> {
         })
     }));
     drop(rt);
+    if SIM_BUDGET_HIT.with(|c| c.get()) {
+        // inconclusive, whatever the tasks that swallowed the guard's panic made of it
+        return Err(SIM_BUDGET_MSG.to_string());
+    }
     match res {
         Ok(()) => {
             let mut o = obs_out.lock().unwrap();
